@@ -106,11 +106,14 @@ func checkInput(kind, name, src string, faithful bool) {
 	replay := map[string]any{"kind": kind, "from": name, "input": src}
 	if !returned {
 		// confirm: a slow machine is not a hang
-		for i := 0; i < 4 && !returned; i++ {
+		for i := 0; i < 2 && !returned; i++ {
 			_, returned = parseGuarded(src)
 		}
 		if !returned {
-			run.Violation("hang", fmt.Sprintf("%s of %s: ParseString did not return within 30 s (5 attempts)", kind, name), replay)
+			run.Violation("hang", fmt.Sprintf("%s of %s: ParseString did not return within 30 s (3 attempts)", kind, name), replay)
+			// the abandoned calls keep their processors busy for good and every further input of the kind costs 90 s:
+			// the run ends with this verdict
+			finish("stopped at the first input on which the parser does not return")
 		}
 		return
 	}
